@@ -122,6 +122,10 @@ MUTANTS = {
     'hub_last_match_wins': ('armulator/armv6/memory_controller_hub.py', "        for memory in self.memories:\n            if memory.beginning <= address < memory.end:\n                return memory", "        found = None\n        for memory in self.memories:\n            if memory.beginning <= address < memory.end:\n                found = memory\n        return found", ['C16']),
     'ram_write_unclamped': ('armulator/armv6/memory_types.py', "        size = max(0, min(size, self.size - address))\n", "", ['C16']),
     'hub_unmapped_read_ff': ('armulator/armv6/memory_controller_hub.py', "            return to_int(data, size)\n        return 0", "            return to_int(data, size)\n        return (1 << (8 * size)) - 1", ['C16']),
+    'walk_large_page_crashes': (V, "            if bit_at(l2desc, 1) == 0:\n", "            if bit_at(l2desc, 1) == 0 and [][0]:\n", ['C18']),
+    'walk_supersection_crashes': (V, "            if bit_at(l1desc, 18) == 0:\n", "            if bit_at(l1desc, 18) == 0 or [][0]:\n", ['C18']),
+    'hyp_stage1_walk_crashes': (V, "self.registers.htcr.orgn0)", "self.registers.htcr.rgn0)", ['C18']),
+    'lpae_stage1_ttbr1_crashes': (V, "                    disabled = self.registers.ttbcr.epd1\n", "                    disabled = self.registers.ttbcr.epd1 or [][0]\n", ['C18']),
     'keyerror_for_ap_100': (V, "        elif perms.ap == 0b100:\n            print('unpredictable')", "        elif perms.ap == 0b100:\n            abort = {}[perms.ap]", ['C18']),
     'stale_opcode_len_reuse': (V, "        elif self.registers.current_instr_set() == InstrSet.THUMB:\n            self.opcode_len = 2\n            self.opcode = self.mem_a_get(self.registers.pc_store_value(), self.opcode_len)",
                                "        elif self.registers.current_instr_set() == InstrSet.THUMB:\n            self.opcode_len = 2 if self.opcode_len != 1 else 4\n            self.opcode = self.mem_a_get(self.registers.pc_store_value(), 2)", []),
